@@ -28,7 +28,7 @@ RULE = ("for each graph-algorithm property module present, a seeded sample of it
         "and random 4-7 node graphs, as DiGraph and ADMG, exact result graph (nodes, directed, bidirected, undirected edges) or RuntimeError, node list as list/tuple/set/frozenset, argument integrity; "
         "all_vstructures on all DAGs with <= 3 nodes (thorough: 4) and random 4-6 node DAGs, triples and as_edges; every case under the label families of graphs.LABEL_FAMILIES (incl. identity-hashed objects) "
         "x 3-4 insertion orders, expected = the extracted Coq model of C15/ExtraModel.v on the abstract graph. proper_possibly_directed_path has NO Coq model: metamorphic stream over all ADMGs with <= 3 nodes "
-        "x pairs of disjoint node sets (X, Y) and random 4-5 node ADMGs / PAGs, expected = the paths (or exception class) obtained with one-character labels, mapped through the renaming; "
+        "x pairs of disjoint node sets (X, Y) and random 4-5 node ADMGs / PAGs, X and Y as sets and frozensets and a single source also as the bare node (not wrapped in a set), expected = the paths (or exception class) obtained with one-character labels, mapped through the renaming; "
         "plus executable cross-checks of the renaming theorems (oracle on g vs on rmap f g). distinct by (module, canonical inner case, family, order, seed); "
         "non-trivial by the inner module's own rule")
 EXHAUSTIVE = {"quick": "extension stream only: all mark graphs / DAGs / ADMGs with <= 3 nodes (every second 3-node mark graph, every third 3-node ADMG with bidirected edges) x all argument tuples",
